@@ -246,6 +246,10 @@ def run(ctx):
 
 SELFTEST = {
     "faults": [
+        {"name": "slant depth remembered per chord, key without the step (generic memo rule)", "file": "pyrex/earth_model.py",
+         "old": "        return 100 * trapz(rhos*distance, ts)",
+         "new": "        key = (tuple(endpoint), tuple(direction))\n        if key in self._memo:\n            return self._memo[key]\n        self._memo[key] = 100 * trapz(rhos*distance, ts)\n        return self._memo[key]",
+         "rule": "R15u"},
         {"name": "exit distance clamped to the chord length", "file": "pyrex/earth_model.py", "old": "        distance = -dot_prod + np.sqrt(discriminant)\n",
          "new": "        distance = -dot_prod + np.sqrt(discriminant)\n        distance = min(distance, 2*np.sqrt(discriminant))\n", "rule": "R15d"},
         {"name": "outermost shell widened by isclose", "file": "pyrex/earth_model.py", "old": "        return np.piecewise(r/self.earth_radius,", "new": "        conditions[-1] = conditions[-1] | np.isclose(r, self.earth_radius)\n        return np.piecewise(r/self.earth_radius,",
